@@ -11,6 +11,9 @@ NATIVE_ONLY_KINDS = ['pytest_skip_comment']
 REQ_MODULE_KINDS = ['requires:faulthandler', 'requires:gc', 'requires:sys', 'requires:json', 'requires:xdverif_no_such_module', 'requires:_thread', 'requires:atexit']
 # kinds for the front ends run as subprocesses only (they change process-wide state: the harness process itself must not run them)
 SUBPROCESS_ONLY_KINDS = ['chdir_then_pass', 'chdir_then_fail']
+# kinds for the comparison of the two front ends only: a doctest that skips ITSELF at run time through pytest's API (whatever the
+# verdict is called, it is the same in both front ends, the doctests behind it still run, and nothing of it is a failure)
+RUNTIME_SKIP_KINDS = ['calls_pytest_skip', 'calls_pytest_importorskip']
 DISABLE_WORDS = ['# DISABLE_DOCTEST', '#DISABLE', '#  unstable', '# FAILING', '#SCRIPT', '# slow_doctest']
 
 
@@ -18,6 +21,10 @@ def doc_lines(kind, n):
     """doctest lines of one doctest of the given kind; n makes texts unique"""
     if kind.startswith('requires:'):
         return ['>>> # xdoctest: +REQUIRES(module:%s)' % kind.split(':', 1)[1], ">>> print('r%d')" % n, 'r%d' % n]
+    if kind == 'calls_pytest_skip':
+        return ['>>> import pytest', ">>> pytest.skip('not on this machine %d')" % n, ">>> print('never %d')" % n, 'not reached']
+    if kind == 'calls_pytest_importorskip':
+        return ['>>> import pytest', ">>> mod = pytest.importorskip('xdverif_no_such_module_%d')" % n, '>>> mod.something()']
     if kind == 'pass':
         return [">>> print('p%d')" % n, 'p%d' % n]
     if kind == 'fail_output':
